@@ -244,11 +244,11 @@ func staleClass(p *program, ts []ad.Scalar) string {
 // exec runs the program on the given inputs.  With rec != nil every statement
 // is recorded and the operands are compared with the jets they had when they
 // were produced.
-func (p *program) exec(vars []ad.ConstScalar, rec *recorder) ad.ConstScalar {
+func (p *program) exec(vars []ad.ConstScalar, rec *recorder, clean bool) ad.ConstScalar {
 	temps := make([]ad.MagicScalar, len(p.Pool))
 	for i, d := range p.Pool {
 		t := p.newReal(d.Fill)
-		if d.N > 0 {
+		if d.N > 0 && !clean {
 			t.Alloc(d.N, d.Order)
 			for a := 0; a < d.N && d.Order >= 1; a++ {
 				t.SetDerivative(a, d.Fill+float64(a))
@@ -429,7 +429,7 @@ func runProgram(cs *fw.Case, p *program, nontrivial bool) {
 		cs.Violation(fmt.Sprintf("C01|%s|%s|%s|any|%s", stage, op, cfg, kind), detail, witness(rec))
 	}
 	var final ad.ConstScalar
-	if pn := fw.Call(func() { final = p.exec(p.makeInputs(), rec) }); pn != nil {
+	if pn := fw.Call(func() { final = p.exec(p.makeInputs(), rec, false) }); pn != nil {
 		// judged by the oracle: a panic inside the operation's domain is a violation, a panic after an
 		// earlier statement left its domain (wrong value upstream) is not
 		ev := p.encode(rec)
@@ -562,7 +562,7 @@ func checkMatrixDerivatives(cs *fw.Case, p *program, j Jet, op, cfg string, rec 
 	}
 	// Jacobian of the 1-vector (final node)
 	f := func(v ad.ConstVector) ad.ConstVector {
-		y := p.exec(varsOf(v), nil)
+		y := p.exec(varsOf(v), nil, true)
 		r := ad.NullDenseVector(p.realType(), 1)
 		r.At(0).Set(y)
 		return r
@@ -577,7 +577,7 @@ func checkMatrixDerivatives(cs *fw.Case, p *program, j Jet, op, cfg string, rec 
 	}
 	cs.Cover("accessor:Matrix.Jacobian")
 	if p.Order >= 2 {
-		g := func(v ad.ConstVector) ad.ConstScalar { return p.exec(varsOf(v), nil) }
+		g := func(v ad.ConstVector) ad.ConstScalar { return p.exec(varsOf(v), nil, true) }
 		for _, hm := range []ad.Matrix{ad.NullDenseMatrix(ad.Float64Type, n, n), ad.NullSparseMatrix(ad.Real64Type, n, n)} {
 			hm.Hessian(g, x)
 			for i := 0; i < n; i++ {
@@ -671,6 +671,7 @@ func genProgram(r *prng.Rand) (*program, bool) {
 		support uint
 		nonlin  bool
 	}
+	holdConst := false // elements of vectors / matrices are stored in the Real type: constants are rounded to it
 	pickOperand := func(want func(v float64) bool, allowConst bool) (operand, bool) {
 		for try := 0; try < 12; try++ {
 			u := r.Float64()
@@ -689,7 +690,7 @@ func genProgram(r *prng.Rand) (*program, bool) {
 			default:
 				k := r.Pick([]string{"c", "f", "r"})
 				v := drawConst(r)
-				if k == "r" {
+				if k == "r" || holdConst {
 					v = p.hold(v)
 				}
 				if want(v) {
@@ -717,6 +718,7 @@ func genProgram(r *prng.Rand) (*program, bool) {
 				op = scalarOps[r.Intn(len(scalarOps))]
 			}
 			s := stmt{Op: op.Name, Kind: op.Kind}
+			holdConst = op.Kind >= c02.RedV
 			var ops []operand
 			ok := true
 			any := func(float64) bool { return true }
